@@ -8,6 +8,10 @@ from the project by `Drv.tagDbOf`.  Then the same read / write calls run on both
   (ii)  the returned Tags (tag, value, type, error) canonically, or the class of the escaping exception,
   (iii) the final target memory / write log / event log / connection tables.
 `run_tagdb` compares the tag database itself (canonically serialised) with the real driver's `tags`.
+`run_open` compares `LogixDriver.open()` itself with `Opn.openLogixSt` (lean/PycommModel/Logix/Open.lean): the Lean side
+creates its own target from the scenario and runs the whole open() on a fresh driver (`ld.open`); compared are the
+frames, the outcome, the driver state, the tag database, `info`, the data-type names, the target's final state, and
+then a few read / write calls for which the Lean side stands on its own `ld.open` state.
 
 Development entry point:   python harness/props/logixdrv.py --n 200 --seed 1
 """
@@ -82,6 +86,10 @@ class Pair:
                 raise
             impl_res = ("raise", norm_exn(core.exn_class(e)))
         impl = {"result": impl_res, "frames": [f.hex() for f in self.sock.frames[before:]]}
+        if impl_res == ("raise", "hang"):
+            # the budget of the harness ran out in the middle of the real call (tens of thousands of 1-byte fragments):
+            # nothing to compare, and the two sides are no longer in the same state
+            return impl, None, ""
         if kind == "read":
             line = "ld.read " + " ".join(sx.name(t) for t in args)
         else:
@@ -564,6 +572,10 @@ def run_calls(ctx, model, focus, kind):
             calls.append(shown)
             case = _case(ctx.seed, i, scn, cfg, calls)
             impl, mod, line = pair.call(kind, args)
+            if mod is None:
+                ctx.count("%s/budget-exceeded" % stream)
+                ok = False
+                break
             ctx.case(stream, (stream, scn, repr(shown)))
             for s in shapes:
                 ctx.count("%s/shape/%s" % (stream, s))
@@ -605,13 +617,369 @@ def run_writes(ctx, model, focus):
     run_calls(ctx, model, focus, "write")
 
 
+# ------------------------------------------------------------------ LogixDriver.open() itself (Logix/Open.lean)
+
+def faults_sx(faults):
+    out = []
+    for (kind, k), how in sorted(faults.items()):
+        out.append("(%s %d)" % ("recvraise" if kind == "recv" else {"raise": "sendraise", "drop": "senddrop"}[how], k))
+    return "(faults%s)" % "".join(" " + x for x in out)
+
+
+class OpenPair(Pair):
+    """the real `LogixDriver.open()` on the interactive Lean target + `ld.open` (the Lean model of open() on its own
+    fresh Lean target); nothing of the Lean session comes from the real driver"""
+
+    def __init__(self, model, scn, path, init_tags, program_tags, rnd, faults):
+        import pycomm3.cip_driver as cd
+        from pycomm3 import LogixDriver
+        self.model, self.scn, self.program_tags = model, scn, program_tags
+        r = model.ask("target.new " + scn)
+        assert r == "ok", r
+        self.d = LogixDriver(path, init_tags=init_tags, init_program_tags=program_tags)
+        self.seqbox = {"last": 0}
+        self.d._sequence = counting(self.d._sequence, self.seqbox)
+        self.sock = fakesock.TargetSocket(model, dict(faults))
+        self.d._sock = self.sock
+        self.open_error = None
+        buf = bytearray(rnd)
+
+        def fake_urandom(n):
+            out = bytes(buf[:n]) + b"\x00" * max(0, n - len(buf))
+            del buf[:n]
+            return out
+        old = cd.urandom
+        cd.urandom = fake_urandom
+        try:
+            ret = core.with_budget(120, self.d.open)
+            self.impl_result = ("ok", bool(ret))
+        except BaseException as e:  # noqa
+            if isinstance(e, (KeyboardInterrupt, SystemExit)):
+                raise
+            self.open_error = e
+            self.impl_result = ("raise", core.exn_class(e))
+        finally:
+            cd.urandom = old
+        self.impl_frames = [f.hex() for f in self.sock.frames]
+        self.ld_line = "ld.open %s (cfg (path %s) (inittags %s) (progtags %s) (rnd %s) %s)" % (
+            scn, sx.name(path), _b(init_tags), _b(program_tags), sx.hexb(rnd), faults_sx(faults))
+        self.ld_out = model.ask(self.ld_line)
+        self.ld_status = "ok" if self.ld_out.startswith("ok ") else self.ld_out
+
+
+def _names(xs):
+    return " ".join(sx.name(x) for x in xs)
+
+
+def impl_drv_sx(d, seqbox):
+    from pycomm3.cip import PADDED_EPATH
+    try:
+        route = sx.hexb(PADDED_EPATH.encode(d._cfg["cip_path"], length=True, pad_length=True))
+    except Exception:  # noqa
+        route = "E"
+    return "(drv (session %s) (opened %s) (connected %s) (cid %s) (extfo %s) (connsize %d) (seq %d) (route %s))" % (
+        _opt(d._session), _b(d._connection_opened), _b(d._target_is_connected),
+        "N" if d._target_cid is None else sx.hexb(d._target_cid), _b(d._cfg["extended forward open"]), d._cfg["connection_size"],
+        seqbox["last"] + 1, route)
+
+
+INFO_EXTRA = ("name", "programs", "tasks", "modules")
+
+
+def impl_ldrv_sx(d):
+    info = d._info
+    plc = {k: v for k, v in info.items() if k not in INFO_EXTRA}
+    progs = "N" if "programs" not in info else " ".join(
+        "(%s %d (%s))" % (sx.name(n), v["instance_id"], _names(v["routines"])) for n, v in info["programs"].items())
+    tasks = "N" if "tasks" not in info else " ".join("(%s %d)" % (sx.name(n), v["instance_id"]) for n, v in info["tasks"].items())
+
+    def optnames(m, k):
+        return "N" if k not in m else "(%s)" % _names(m[k])
+    mods = "N" if "modules" not in info else " ".join(
+        "(%s (slots %s) (types %s) (unknown %s))" % (
+            sx.name(n), " ".join("(%d %s)" % (slot, _names(sv["types"])) for slot, sv in m["slots"].items()),
+            optnames(m, "types"), optnames(m, "__UNKNOWN__")) for n, m in info["modules"].items())
+    metas = " ".join("(%s %s %d %d %d %d %s %s %s)" % (
+        sx.name(n), _b(t["alias"]), t["instance_id"], t["symbol_address"], t["symbol_object_address"], t["software_control"],
+        sx.name(t["external_access"]), _opt(t.get("template_instance_id")), _opt(t.get("bit_position"))) for n, t in d._tags.items())
+    return "(ldrv (micro800 %s) (useids %s) (cacheleft %s) (info %s (name %s) (programs %s) (tasks %s) (modules %s)) (datatypes %s) (metas %s))" % (
+        _b(d._micro800), _b(d._cfg["use_instance_ids"]), _b(d._cache is not None), sx.val(plc),
+        "N" if "name" not in info else sx.name(info["name"]), progs, tasks, mods, _names(d._data_types.keys()), metas)
+
+
+def _sections(text):
+    """'(head (k v…) (k v…) …)' -> {k: parsed item}"""
+    item = sx.parse(text)[0]
+    return {it[0] if isinstance(it, list) and it else repr(it): it for it in item[1:]}
+
+
+def compare_open(ctx, stream, case, pair):
+    """-> 'ok' | 'mismatch' | 'unmodelled'"""
+    out = pair.ld_out
+    if not out.startswith("ok "):
+        ctx.mismatch(stream, dict(case, field="ld.open"), repr(pair.impl_result), out[:300])
+        return "mismatch"
+    items = sx.parse(out[3:])
+    res, frames, drv, ldrv = items[0], items[1], items[2], items[3]
+    mres = ("ok", res[1][1] == "T") if res[1][0] == "ok" else ("raise", res[1][1])
+    if mres == ("raise", "foreign:Unmodelled"):
+        ctx.unmodelled(stream)
+        return "unmodelled"
+    good = True
+    mframes = [f[1] if len(f) > 1 else "" for f in frames[1:]]
+    if pair.impl_frames != mframes:
+        a, b = pair.impl_frames, mframes
+        k = next((j for j, (x, y) in enumerate(zip(a, b)) if x != y), min(len(a), len(b)))
+        ctx.mismatch(stream, dict(case, field="frames", first_difference=k),
+                     "%d frames; #%d: %s" % (len(a), k, (a[k] if k < len(a) else "-")[:400]),
+                     "%d frames; #%d: %s" % (len(b), k, (b[k] if k < len(b) else "-")[:400]))
+        good = False
+    if pair.impl_result != mres:
+        ctx.mismatch(stream, dict(case, field="outcome"), repr(pair.impl_result), repr(mres))
+        good = False
+    # driver state
+    want = _sections(impl_drv_sx(pair.d, pair.seqbox))
+    got = {it[0]: it for it in drv[1:]}
+    for k in want:
+        if want[k] != got.get(k):
+            ctx.mismatch(stream, dict(case, field="drv." + k), repr(want[k])[:300], repr(got.get(k))[:300])
+            good = False
+    try:
+        want = _sections(impl_ldrv_sx(pair.d))
+    except (sx.Unrenderable, KeyError, TypeError) as e:
+        ctx.unmodelled(stream)
+        ctx.count(stream + "/unrenderable/" + repr(e)[:30])
+        return "unmodelled"
+    got = {it[0]: it for it in ldrv[1:]}
+    for k in want:
+        if want[k] != got.get(k):
+            w, g = want[k], got.get(k)
+            if k in ("info", "metas") and isinstance(g, list):
+                d_ = next(((x, y) for x, y in zip(w[1:], g[1:]) if x != y), (w[-1:], g[-1:]))
+                w, g = d_
+            ctx.mismatch(stream, dict(case, field="ldrv." + k), repr(w)[:600], repr(g)[:600])
+            good = False
+    # the tag database
+    try:
+        want = tags_sx(pair.d)
+    except sx.Unrenderable as e:
+        ctx.unmodelled(stream)
+        ctx.count(stream + "/unrenderable/" + str(e)[:30])
+        return "unmodelled"
+    got = pair.model.ask("ld.tags")
+    if _norm(want) != _norm(got):
+        wi, gi = _top(want), _top(got)
+        diff = next(((a, b) for a, b in zip(wi, gi) if a != b), (want[-300:], got[-300:]))
+        ctx.mismatch(stream, dict(case, field="tags"), diff[0][:1500], diff[1][:1500])
+        good = False
+    return "ok" if good else "mismatch"
+
+
+def compare_final_state(ctx, stream, case, pair):
+    si, sm = pair.final_state()
+    good = True
+    for name, a, b in zip(("memory", "log", "state"), si, sm):
+        if _norm(a) != _norm(b):
+            k = next((j for j, (x, y) in enumerate(zip(a, b)) if x != y), 0)
+            ctx.mismatch(stream, dict(case, field="target-" + name), a[max(0, k - 200):k + 300], b[max(0, k - 200):k + 300])
+            good = False
+    return good
+
+
+OPEN_PATHS = ["10.0.0.1", "10.0.0.1", "10.0.0.1", "10.0.0.1/1", "10.0.0.1/3", "10.0.0.1/bp/2", "10.0.0.1/backplane/0",
+              "192.168.1.10/bp/1/enet/10.0.0.2/bp/0", "10.0.0.1:44818/2", "10.0.0.1/1/5"]
+
+
+def spice_project(rng, p):
+    """symbols that exercise the bookkeeping of `_isolate_user_tags`: several module tags per module / slot, odd
+    module spellings, routines / tasks / programs in the wrong scope"""
+    ctl = p["controller"]
+    inst = max([s.inst for s in ctl] + [s.inst for _, syms in p["programs"] for s in syms] + [0])
+
+    def nxt():
+        nonlocal inst
+        inst += rng.choice([1, 2, 9])
+        return inst
+    if rng.random() < 0.35:
+        for nm_ in rng.sample(["Local:1:I", "Local:1:O", "Local:1:C", "Local:2:I", "Local:07:O", "Rack:I", "Rack:O", "Rack:C", "Rack:3:x:S",
+                               "Rack:x:I", "Enet:S", ":I"], rng.choice([1, 2, 4, 6])):
+            if any(s.name == nm_ for s in ctl):
+                continue
+            ctl.append(lg.Symbol(nxt(), nm_, "atomic", "DINT", [0, 0, 0], lg.rand_mem(rng, "atomic", "DINT", 1), access=rng.choice([0, 2])))
+    if rng.random() < 0.15:
+        ctl.append(lg.Symbol(nxt(), rng.choice(["Routine:Orphan", "Task:T2", "Task:Task:X", "Map:Task:Y", "Cxn:Local:1:I"]), "system", 0x1068, [0, 0, 0], b""))
+    if p["programs"] and rng.random() < 0.2:
+        pn, syms = rng.choice(p["programs"])
+        syms.append(lg.Symbol(nxt(), rng.choice(["Task:Inner", "Program:" + pn[len("Program:"):], "Routine:Late", "Local:4:I"]),
+                              "system", 0x1068, [0, 0, 0], b""))
+    if p["programs"] and rng.random() < 0.04:
+        # a program symbol inside a program scope that names a NEW program: the dict `_info["programs"]` grows during its iteration
+        pn, syms = rng.choice(p["programs"])
+        syms.append(lg.Symbol(nxt(), "Program:Ghost", "system", 0x1068, [0, 0, 0], b""))
+    if rng.random() < 0.04:
+        # `name.replace("Program:", "")` removes every occurrence: the uploaded program name is not the controller's
+        ctl.append(lg.Symbol(nxt(), rng.choice(["Program:AProgram:B", "Program:"]), "system", 0x1068, [0, 0, 0], b""))
+    ctl.sort(key=lambda s: s.inst)
+    if rng.random() < 0.15:
+        # instance ids that need 16- / 32-bit logical segments (pagination continues at last instance + 1; instance addressing in reads)
+        off = rng.choice([200, 65300, 65536, 70000, 2 ** 24])
+        for s_ in ctl + [s_ for _, syms in p["programs"] for s_ in syms]:
+            s_.inst += off
+
+
+def gen_open_setup(rng):
+    """-> project, scenario text, open configuration, what was varied"""
+    p = lg.gen_project(rng)
+    spice_project(rng, p)
+    if rng.random() < 0.2:
+        p["micro800"] = True
+    r = rng.random()
+    policy = (rng.random() >= 0.04, rng.random() < 0.6, rng.random() >= 0.08)
+    id_major = p["rev"]
+    how = []
+    if rng.random() < 0.05:
+        # the identity object and the symbol object disagree about the firmware: attribute 10 is asked of a controller without it
+        id_major = rng.choice([18, 32]) if p["rev"] < 18 else 16
+        how.append("rev-mismatch")
+    shown = p
+    if p["templates"] and rng.random() < 0.06:
+        # a structure whose definition the controller does not have: a service error in the middle of the upload
+        shown = dict(p, templates=[t for t in p["templates"] if t is not rng.choice(p["templates"])])
+        how.append("dangling-template")
+    name = b"2080-LC50" if p.get("micro800") else rng.choice([b"1756-L83E/B", b"1756-L83E/B", b"1769-L33ER", b"", b"2081-X"])
+    scn = fakesock.base_scenario(policy=policy, major=id_major, name=name, plc_name=rng.choice([b"PLC_A", b"", b"Line 7"]),
+                                 vendor=rng.choice([1, 1, 5, 0, 60000]), ptype=rng.choice([14, 14, 12, 0x2B, 999]),
+                                 status=rng.choice([0x3060, 0x3060, 0x1060, 0x2070, 0x3170, 0x0000, 0x6030]),
+                                 serial=rng.choice([0x00C0FFEE, 0, 0xFFFFFFFF, 0x12])) \
+        + " " + lg.scenario_sx(shown)
+    faults = {}
+    if rng.random() < 0.14:
+        k = rng.choice([0, 1, 2, 3, 4, 5, 6, 7, 8, 9, 10, 12, 15, 20, 30, 45])
+        kind = rng.choice([("send", "raise"), ("send", "drop"), ("recv", "raise")])
+        faults[(kind[0], k)] = kind[1]
+        how.append("fault")
+    cfg = {"path": rng.choice(OPEN_PATHS), "init_tags": rng.random() < 0.92, "program_tags": rng.random() < 0.8,
+           "rnd": bytes(rng.getrandbits(8) for _ in range(8)).hex(), "faults": [[k[0], k[1], v] for k, v in faults.items()],
+           "policy": list(policy), "rev": p["rev"], "identity_major": id_major, "micro800": bool(p.get("micro800")),
+           "pages": p["pages"], "tmpl": p["tmpl"], "how": how}
+    return p, scn, cfg
+
+
+def open_pair_of(model, scn, cfg):
+    faults = {(k, n): how for k, n, how in cfg["faults"]}
+    return OpenPair(model, scn, cfg["path"], cfg["init_tags"], cfg["program_tags"], bytes.fromhex(cfg["rnd"]), faults)
+
+
+def run_open(ctx, model, focus):
+    """LogixDriver.open() == Opn.openLogixSt, then read / write calls on the two self-contained sessions"""
+    rng = ctx.rng
+    stream = "ld-open"
+    cstream = "ld-open-calls"
+    for i in range(ctx.budget(40, 400)):
+        p, scn, cfg = gen_open_setup(rng)
+        pair = open_pair_of(model, scn, cfg)
+        case = {"seed": ctx.seed, "index": i, "open": cfg, "calls": [], "scenario": scn}
+        ctx.case(stream, (stream, scn, repr(cfg)))
+        ctx.count("%s/outcome/%s" % (stream, pair.impl_result[1] if pair.impl_result[0] == "raise" else "returned-%s" % pair.impl_result[1]))
+        ctx.count("%s/rev/%s" % (stream, "<18" if cfg["rev"] < 18 else ("18-20" if cfg["rev"] < 21 else ">=21")))
+        ctx.count("%s/micro800/%s" % (stream, cfg["micro800"]))
+        ctx.count("%s/init/%s" % (stream, "none" if not cfg["init_tags"] else ("all" if cfg["program_tags"] else "controller")))
+        ctx.count("%s/policy/%s" % (stream, "".join("T" if x else "F" for x in cfg["policy"])))
+        ctx.count("%s/pages/%s" % (stream, cfg["pages"]))
+        ctx.count("%s/tmpl/%s" % (stream, cfg["tmpl"]))
+        ctx.count("%s/path/%s" % (stream, cfg["path"]))
+        for h in cfg["how"] or ["plain"]:
+            ctx.count("%s/how/%s" % (stream, h))
+        ctx.count("%s/frames" % stream, len(pair.impl_frames))
+        ctx.count("%s/conn/%s" % (stream, pair.d._cfg["connection_size"] if pair.d._target_is_connected else "none"))
+        if pair.impl_result == ("raise", "hang"):
+            ctx.count("%s/budget-exceeded" % stream)
+            pair.close()
+            continue
+        verdict = compare_open(ctx, stream, case, pair)
+        if verdict == "unmodelled":
+            pair.close()
+            continue
+        good = verdict == "ok"
+        if good and pair.impl_result == ("ok", True) and cfg["init_tags"]:
+            ctx.count("%s/tags" % stream, len(pair.d.tags))
+            ctx.count("%s/datatypes" % stream, len(pair.d._data_types))
+            # the uploaded database == the database computed from the project (Drv.tagDbOf)
+            a, b = model.ask("ld.tags"), model.ask("ld.tagdbof " + _b(cfg["program_tags"]))
+            ctx.case("ld-open-vs-tagdbof", ("tagdbof", scn))
+            if _norm(a) != _norm(b):
+                if b == "none" and cfg["program_tags"] and any(s.name == "Program:" for s in p["controller"]):
+                    # outside the domain of `tagDbOf` (a program symbol with an empty name): the real upload (and `Opn.getTagList`)
+                    # asks for the scope "" = the controller scope again and lists every controller tag once more as
+                    # "Program:.<name>" (logix_driver.py:457 `if program:`); `tagDbOf` has no such program and answers none
+                    ctx.count("ld-open-vs-tagdbof/outside-domain/empty-program-name")
+                elif b == "none":
+                    ctx.mismatch("ld-open-vs-tagdbof", dict(case, field="tagDbOf"), "uploaded %d tags" % len(pair.d.tags), "tagDbOf = none")
+                else:
+                    ai, bi = _top(a), _top(b)
+                    diff = next(((x, y) for x, y in zip(ai, bi) if x != y), (a[-300:], b[-300:]))
+                    ctx.mismatch("ld-open-vs-tagdbof", dict(case, field="tagDbOf"), diff[0][:1500], diff[1][:1500])
+        if good:
+            good = compare_final_state(ctx, stream, case, pair)
+        # ---- second phase: read / write on both sides; the Lean session has only its own `ld.open` state
+        calls = []
+        ncalls = rng.choice([1, 2, 3]) if pair.impl_result == ("ok", True) else 1
+        for c in range(ncalls if good else 0):
+            kind = rng.choice(["read", "read", "write"])
+            if kind == "read":
+                args, shapes = gen_read_call(rng, p, cfg["program_tags"])
+                shown = list(args)
+            else:
+                args, shapes = gen_write_call(rng, p, cfg["program_tags"])
+                args = [(t, v) for t, v in args if _renderable(v)]
+                shown = [(t, sx.val(v)) for t, v in args]
+            if not args:
+                continue
+            calls.append(shown)
+            ccase = dict(case, calls=calls)
+            impl, mod, line = pair.call(kind, args)
+            if mod is None:
+                ctx.count("%s/budget-exceeded" % cstream)
+                good = False
+                break
+            ctx.case(cstream, (cstream, scn, repr(shown)))
+            ctx.count("%s/%s" % (cstream, kind))
+            ctx.count("%s/frames" % cstream, len(impl["frames"]))
+            ctx.count("%s/outcome/%s" % (cstream, impl["result"][0] if impl["result"][0] != "raise" else "raise:" + impl["result"][1]))
+            if impl["result"][0] == "tags":
+                for t in impl["result"][1]:
+                    ctx.count("%s/tag/%s" % (cstream, "ok" if t[3] == ("none",) else "error:" + t[3][0]))
+            good = compare_call(ctx, cstream, dict(ccase, model_line=line[:3000]), impl, mod)
+            if not good or impl["result"][0] == "raise":
+                break
+        if good and calls:
+            compare_final_state(ctx, cstream, dict(case, calls=calls), pair)
+            want, got = _sections(impl_drv_sx(pair.d, pair.seqbox)), {it[0]: it for it in sx.parse(model.ask("ld.drv")[3:])[0][1:]}
+            if want != got:
+                k = next(k for k in want if want[k] != got.get(k))
+                ctx.mismatch(cstream, dict(case, calls=calls, field="drv." + k), repr(want[k]), repr(got.get(k)))
+        if i < 2:
+            ctx.sample({"stream": stream, "open": {k: v for k, v in cfg.items() if k != "rnd"}, "outcome": pair.impl_result,
+                        "frames": len(pair.impl_frames), "calls": [c[:3] for c in calls][:2]})
+        pair.close()
+
+
 # ------------------------------------------------------------------ replay of one recorded case
 
 def replay_case(model, case):
     """re-run a recorded mismatch case (scenario + config + calls) on both sides; prints both transcripts"""
-    cfg = case["config"]
-    pair = Pair(model, case["scenario"], cfg["rev"], None, program_tags=cfg["program_tags"])
-    print("open:", pair.open_error, getattr(pair, "ld_status", None))
+    if "open" in case:
+        ctx = core.Ctx("LD-replay", "quick", 0)
+        pair = open_pair_of(model, case["scenario"], case["open"])
+        print("open():", pair.impl_result, "frames", len(pair.impl_frames))
+        print("ld.open:", pair.ld_out[:200].split(" (frames")[0])
+        print("  verdict:", compare_open(ctx, "replay", {}, pair), " final state equal:", compare_final_state(ctx, "replay", {}, pair))
+        for m in ctx.mismatches:
+            print("   MISMATCH", m["case"], "\n      impl :", m["impl"][:600], "\n      model:", m["model"][:600])
+    else:
+        cfg = case["config"]
+        pair = Pair(model, case["scenario"], cfg["rev"], None, program_tags=cfg["program_tags"])
+        print("open:", pair.open_error, getattr(pair, "ld_status", None))
     for call in case["calls"]:
         if call and isinstance(call[0], (list, tuple)):
             args = [(t, sx.to_py(sx.parse(v)[0])) for t, v in call]
@@ -621,6 +989,9 @@ def replay_case(model, case):
             args, kind = list(call), "read"
         impl, mod, line = pair.call(kind, args)
         print(kind, args if kind == "read" else [(t, repr(v)[:60]) for t, v in args])
+        if mod is None:
+            print("  the real call exceeded the harness budget (hang); nothing to compare")
+            break
         print("  impl frames", len(impl["frames"]), "model frames", len(mod["frames"]), "equal", impl["frames"] == mod["frames"])
         if impl["frames"] != mod["frames"]:
             for a, b in zip(impl["frames"], mod["frames"]):
@@ -665,7 +1036,7 @@ def main():
     ap = argparse.ArgumentParser()
     ap.add_argument("--n", type=int, default=200)
     ap.add_argument("--seed", type=int, default=0)
-    ap.add_argument("--streams", default="tagdb,reads,writes")
+    ap.add_argument("--streams", default="tagdb,reads,writes", help="comma-separated: tagdb, reads, writes, open")
     ap.add_argument("--show", type=int, default=3)
     ap.add_argument("--replay", help="json file with one recorded case (as printed by --dump)")
     ap.add_argument("--dump", help="write the first mismatching case of each stream to this directory")
@@ -680,7 +1051,7 @@ def main():
     for name in a.streams.split(","):
         ctx = core.Ctx("LD-" + name, "quick", a.seed)
         ctx.budget = lambda quick, thorough, n=a.n: n
-        {"tagdb": run_tagdb, "reads": run_reads, "writes": run_writes}[name](ctx, model, "LD")
+        {"tagdb": run_tagdb, "reads": run_reads, "writes": run_writes, "open": run_open}[name](ctx, model, "LD")
         for sname, st in ctx.streams.items():
             print("%-10s seed=%d cases=%d mismatches=%d unmodelled=%d" % (sname, a.seed, st["cases"], st["mismatches"], st["unmodelled"]))
             total += st["mismatches"]
